@@ -196,6 +196,9 @@ def frag_image(rnd, fs):
         last = L - (ng - 1) * G
         if last == 0:
             sectors, lastbytes = 1, 0
+            if rnd.random() < 0.5:
+                # "no sector of the last granule in use" ($C0): legal Disk BASIC, the bytes-in-last-sector field is then irrelevant
+                sectors, lastbytes = 0, rnd.choice([0, 0, 17, 255, 256])
         else:
             sectors = (last + 255) // 256
             lastbytes = last - (sectors - 1) * 256        # 1..256
